@@ -282,7 +282,7 @@ func checkQuantifier(r *Run, prog *Program, a *Anchors, pfx string) {
 				errs := map[string]bool{}
 				ps.Model = func(ev *Event) *Sym {
 					if ev.Callee == a.GetValue {
-						return &Sym{K: sTuple, Kids: []*Sym{{K: sOpaque, V: ev.Instr.Value(), Str: "collection"}, {K: sConst, C: constant.MakeBool(true)}, nilSym()}}
+						return a.lookupModel(&Sym{K: sOpaque, V: ev.Instr.Value(), Str: "collection"}, &Sym{K: sConst, C: constant.MakeBool(true)}, nilSym())
 					}
 					if ev.Callee != nil && prog.InModule(ev.Callee) && isBoolErr(ev.Callee.Signature) && len(ev.Args) > 0 && ev.Args[0].Key() == loadField(pExpr, "Inner").Key() {
 						var e *Sym = nilSym()
@@ -663,7 +663,7 @@ func checkMapKeyGuard(r *Run, prog *Program, a *Anchors, pfx string) {
 	ps.Inline = func(c *ssa.Function) bool { return bexprHelper(prog, a, c) && !strings.HasPrefix(c.Name(), "With") }
 	ps.Model = func(ev *Event) *Sym {
 		if ev.Callee == a.GetValue {
-			return &Sym{K: sTuple, Kids: []*Sym{{K: sOpaque, V: ev.Instr.Value(), Str: "collection"}, {K: sConst, C: constant.MakeBool(true)}, nilSym()}}
+			return a.lookupModel(&Sym{K: sOpaque, V: ev.Instr.Value(), Str: "collection"}, &Sym{K: sConst, C: constant.MakeBool(true)}, nilSym())
 		}
 		return nil
 	}
@@ -916,10 +916,13 @@ func checkScan(r *Run, prog *Program, a *Anchors, pfx string) {
 	// a concrete binding used with a longer path is an error; used alone it is returned as is
 	for _, sm := range sums {
 		lf := collectLookup(sm)
-		if len(lf.gets) != 0 || sm.Ret == nil || len(sm.Results) != 3 {
+		if len(lf.gets) != 0 || sm.Ret == nil {
 			continue
 		}
-		val, present, err := sm.Results[0], sm.Results[1], sm.Results[2]
+		val, present, err, okShape := lookupResults(fn.Signature, sm.Results)
+		if !okShape || val == nil || present == nil {
+			continue
+		}
 		pv, _ := present.BoolConst()
 		if pv {
 			r.Check(pfx+".scan", "concrete-binding-value", prog.pos(sm.Ret.Pos()), isFieldOfValue(val, "value") && err.IsNil(), "a key/index binding referenced alone must yield exactly the bound value; got "+shortKey(val))
